@@ -97,6 +97,13 @@ CHECKS['C07'] = dict(
     design_ref='DESIGN.md section 3 C07',
     note='8-bit bytes inside quoted strings and an empty response text are accepted (the property does not forbid them); ManageSieve output is not judged by this property; four recorded known findings (zero-part multipart; three FETCH-phase exceptions that tear the response)',
     technique='bounded-exhaustive enumeration of echo-able client data, every server byte checked by an independent strict grammar parser')
+CHECKS['C03'] = dict(
+    engine='E8 bounded-exhaustive enumeration (vf/checks/c03.py)',
+    category='exploration',
+    text='Every distinct concatenation of <= 4 (quick; 5 thorough: ~5*10^5) tokens from a 14-token alphabet (a header line, text/plain, multipart and message/rfc822 Content-Type lines, boundary delimiters, a body character, space, TAB, CRLF, bare LF, bare CR, NUL, 0xFF) plus 18 length-boundary strings (4095..65537 bytes) and 30 header/nesting bombs is APPENDed to the real server and read back: BODY[] and RFC822.SIZE must equal the bytes and their length, BODY[HEADER]+BODY[TEXT] must equal the message, BODY[]<o.n> must equal b[o:o+n] for all (o,n) in {0,1,|b|-1,|b|,|b|+1}^2, every part announced in BODYSTRUCTURE is fetched and its length compared with the announced octets, and the copies produced by COPY and MOVE are re-fetched and compared (literal framing is checked by the response parser).',
+    design_ref='DESIGN.md section 3 C03',
+    note='dict backend only in this check (the maildir backend stores through email objects and rewrites CRLF: not claimed here); strings over the token alphabet and the listed boundaries, not arbitrary 64 KiB contents; messages whose FETCH response is itself malformed (C07/C06 known findings) are counted as skipped; two recorded known findings about BODYSTRUCTURE part sizes (pinned by the suite)',
+    technique='bounded-exhaustive enumeration of message byte strings through APPEND/FETCH/COPY/MOVE on the implementation with byte-equality oracles')
 NA = {}
 
 def main():
